@@ -43,6 +43,11 @@ pub struct C05Plan {
     /// most this many bytes per read.
     #[serde(default)]
     pub max_chunk: usize,
+    /// A container "tag" of this many bytes precedes the victim in its reader; the
+    /// USER reads it with `read_bits` (no commit) and then calls the decoder.  A
+    /// failed call must put the reader back to where the CALL started, i.e. after the tag.
+    #[serde(default)]
+    pub tag_bytes: usize,
 }
 
 fn build(opts: u8, prefix: &[PlanPic]) -> Result<Slot, String> {
@@ -82,6 +87,19 @@ fn prep(plan: &C05Plan) -> Result<Slot, String> {
     } else {
         let mut s = build_chunked(plan.opts, &plan.prefix, plan.max_chunk)?;
         s.new_reader();
+        if plan.tag_bytes > 0 {
+            let tag: Vec<u8> = (0..plan.tag_bytes).map(|i| 0xA0 | (i as u8 & 0x0F)).collect();
+            s.feed(&tag);
+            let n = plan.tag_bytes;
+            let r = guarded(|| {
+                for _ in 0..n {
+                    let _ = s.reader.read_bits::<u8>(8);
+                }
+            });
+            if r.is_err() {
+                return Err("reading the tag panicked".into());
+            }
+        }
         Ok(s)
     }
 }
@@ -722,6 +740,7 @@ pub fn gen_c05(rng: &mut Rng, tier: Tier) -> C05Plan {
         io_kinds: vec![*rng.pick(&SrcFault::HARD)],
         shared_reader: rng.chance(1, 3),
         max_chunk: *rng.pick(&[0usize, 0, 0, 1, 2, 3, 7]),
+        tag_bytes: *rng.pick(&[0usize, 0, 0, 1, 3, 5]),
     }
 }
 
